@@ -167,6 +167,14 @@ def job(cfg):
                     eps = [tm.mul(tm.sub(zz, m), sc.t_exp(tm.neg(ls))) for zz, m, ls in zip(z, mean, logstd)]
                     if not all(any(v.args[0].startswith("randn") for v in tm.free_vars(zz)) for zz in z):
                         note("noise[%d,%d]" % (i, j), "conditional noise does not contain a standard-normal draw")
+                    else:
+                        # the base draw of block i is  mean_i + exp(log_std_i) * (one standard-normal draw), with row i's parameters
+                        bad_z = None
+                        for zz, m_, ls in zip(z, mean, logstd):
+                            rv = [v for v in tm.free_vars(zz) if v.args[0].startswith("randn")]
+                            if len(rv) != 1 or not same(zz, tm.add(m_, tm.mul(sc.t_exp(ls), rv[0]))):
+                                bad_z = "base noise of sample[%d,%d] is not mean_%d + std_%d * randn: %s" % (i, j, i, i, tm.pretty(zz)[:120])
+                        note("conditional-noise[%d,%d]" % (i, j), bad_z)
                     base_lp = tm.sub(tm.sub(tm.scale(tm.read_float(-0.5), tm.add(*[tm.mul(e, e) for e in eps])), tm.add(*logstd)), log_z)
                 expect = tm.sub(base_lp, tm.app("Li", z + want_c))
                 note("density[%d,%d]" % (i, j), None if same(la[i, j].t, expect) else "logp != base_log_prob(noise) - lad_inv(noise): %s" % tm.pretty(la[i, j].t)[:160])
@@ -264,6 +272,26 @@ def replay(base_kind, emb, k, n, D):
             lp2 = flow.log_prob(s)
         res["max_diff"] = float((lp - lp2).abs().max())
         res["reproduced"] = res["max_diff"] > 1e-4
+        if base_kind == "ConditionalDiagonalNormal" and k is not None:
+            # row conditioning: with tiny standard deviations every draw of block i must sit on the mean of row i
+            with torch.no_grad():
+                lin = nn.Linear(cw, ew) if emb else None
+                c2 = torch.randn(k, cw)
+                if emb:
+                    lin.weight[D:] = 0.0
+                    lin.bias[D:] = -12.0
+                    lin.weight[:D] *= 50.0
+                    e = lin(c2)
+                else:
+                    c2[:, :D] *= 50.0
+                    c2[:, D:] = -12.0
+                    e = c2
+                f2 = FB.Flow(ST.IdentityTransform(), DN.ConditionalDiagonalNormal([D]), embedding_net=lin)
+                devs = []
+                for smp in (f2.sample(n, context=c2), f2.sample_and_log_prob(n, context=c2)[0]):
+                    devs.append(float((smp.reshape(k, n, D) - e[:, None, :D]).abs().max()))
+            res["row_mean_deviation"] = max(devs)
+            res["reproduced"] = res["reproduced"] or max(devs) > 1e-2
     except Exception as e:  # noqa
         res["exception"] = "%s: %s" % (type(e).__name__, e)
         res["reproduced"] = True
